@@ -40,7 +40,8 @@ def evolve(rnd, g, ir, compatible_only):
              "rename_type_alias", "change_ns", "field_alias_swap", "union_reorder", "hoist_def", "hoist_def", "rename_evolve_referenced",
              "rename_evolve_referenced", "drop_named_field", "drop_named_field"]
     if not compatible_only:
-        steps += ["add_nodefault", "demote", "enum_remove", "fixed_size", "rename_field", "narrow_union", "rename_type", "kind_change"] * 1
+        steps += ["add_nodefault", "demote", "enum_remove", "fixed_size", "rename_field", "narrow_union", "rename_type", "kind_change",
+                  "unwrap_union", "unwrap_union"] * 1
     rnd.shuffle(steps)
     for st in steps:
         if st == "reorder" and records:
@@ -128,6 +129,20 @@ def evolve(rnd, g, ir, compatible_only):
             if len(u["br"]) >= 2 and not any(defines_named(b) for b in u["br"]):
                 rnd.shuffle(u["br"])
                 return ir, st
+        elif st == "unwrap_union":
+            # the reader keeps one branch of a union (possibly promoted): data of that branch resolve, data of the others do not
+            cands = [(h, k, n) for h, k, n in pos if n["k"] == "union" and h is not None and not isinstance(h, list) and n["br"]
+                     and not any(defines_named(b) for b in n["br"])]
+            if not cands:
+                continue
+            h, k, n = rnd.choice(cands)
+            b = copy.deepcopy(rnd.choice(n["br"]))
+            if b["k"] == "prim" and b["name"] in PROMOTE and "lt" not in b and rnd.random() < 0.5:
+                b = {"k": "prim", "name": rnd.choice(PROMOTE[b["name"]])}
+            h[k] = b
+            if isinstance(h, dict) and "hasdef" in h:
+                h["hasdef"] = False
+            return ir, st
         elif st == "narrow_union" and unions:
             u = rnd.choice(unions)
             cands = [i for i, b in enumerate(u["br"]) if not defines_named(b)]
@@ -379,6 +394,11 @@ def resolve_case(fa, cid, wraw, rraw, datum, equal):
         fa.writer(ff, wraw, [datum])
         recs = list(fa.reader(io.BytesIO(ff.getvalue()), reader_schema=rraw))
         c["file"] = {"ok": True, "recs": [proj.pv(r) for r in recs]}
+        try:
+            brecs = [r for blk in fa.block_reader(io.BytesIO(ff.getvalue()), reader_schema=rraw) for r in blk]
+            c["blocks"] = {"ok": True, "recs": [proj.pv(r) for r in brecs]}
+        except Exception as e:  # noqa: BLE001
+            c["blocks"] = {"ok": False, "exc": proj.pexc(e)["exc"]}
     except Exception as e:  # noqa: BLE001
         c["file"] = {"ok": False, "exc": proj.pexc(e)["exc"], "msg": proj.cps(str(e)[:150])}
     return c
